@@ -23,11 +23,13 @@ pub enum Theme {
     PrefixedNonAscii,
     RandomNames,
     Mixed,
+    /// a root, names that collide under it, and names that literally are "root + name + number" (what a numbered struct name looks like)
+    NumberedNames,
 }
 
-pub const THEMES: [Theme; 13] = [
+pub const THEMES: [Theme; 14] = [
     Theme::Plain, Theme::Keywords, Theme::CaseVariants, Theme::Separators, Theme::Prefixed, Theme::Concat, Theme::Prelude, Theme::SuffixTraps,
-    Theme::NonAscii, Theme::Recurring, Theme::PrefixedNonAscii, Theme::RandomNames, Theme::Mixed,
+    Theme::NonAscii, Theme::Recurring, Theme::PrefixedNonAscii, Theme::RandomNames, Theme::Mixed, Theme::NumberedNames,
 ];
 
 /// themes whose names never differ only by namespace prefix and never carry a prefix (C01/C09/C13 scope by construction)
@@ -53,6 +55,22 @@ pub fn pool(theme: Theme, rng: &mut Rng) -> Vec<String> {
             v.push("self".into());
             v.push("Self".into());
             v.push("x".into());
+            return v;
+        }
+        Theme::NumberedNames => {
+            let root = *rng.pick(&["r", "a", "Root"]);
+            let base = *rng.pick(&["foo", "x", "item"]);
+            let mut cap = base.to_string();
+            if let Some(f) = cap.get_mut(0..1) {
+                f.make_ascii_uppercase();
+            }
+            let mut v = vec![root.to_string(), base.to_string(), cap.clone(), base.to_uppercase()];
+            for k in 1..4 {
+                v.push(format!("{}_{}{}", root, base, k));
+                v.push(format!("{}{}", base, k));
+            }
+            v.push(format!("{}_{}", root, base));
+            v.push(format!("{}{}", cap, 1));
             return v;
         }
         Theme::CaseVariants => vec!["Foo", "foo", "FOO", "fOO", "foO", "Bar", "bar", "fooBar", "FooBar", "foobar"],
@@ -271,7 +289,10 @@ pub fn gen_doc(rng: &mut Rng, shape: &Shape, cfg: &GenCfg, stage: usize) -> Doc 
     let mut epilog = Vec::new();
     if cfg.misc {
         if rng.chance(1, 4) {
-            prolog.push(Item::Decl("xml version=\"1.0\" encoding=\"UTF-8\"".into()));
+            // the label is incidental: the bytes handed to the reader are UTF-8 whatever the declaration says
+            let decls = ["xml version=\"1.0\" encoding=\"UTF-8\"", "xml version=\"1.0\"", "xml version=\"1.0\" encoding=\"utf-8\" standalone=\"yes\"",
+                "xml version=\"1.0\" encoding=\"ISO-8859-1\"", "xml version=\"1.1\" encoding=\"US-ASCII\" standalone=\"no\"", "xml version='1.0' encoding='iso-8859-1'"];
+            prolog.push(Item::Decl(rng.pick(&decls).to_string()));
         }
         if rng.chance(1, 8) {
             prolog.push(Item::DocType("r".into()));
@@ -289,7 +310,18 @@ pub fn gen_doc(rng: &mut Rng, shape: &Shape, cfg: &GenCfg, stage: usize) -> Doc 
             epilog.push(Item::Ws("\n".into()));
         }
     }
-    Doc { prolog, root, epilog }
+    let mut doc = Doc { prolog, root, epilog };
+    // a label other than UTF-8 is only honest (and the document only well-formed) if the content is plain ASCII
+    if !doc.to_xml().is_ascii() {
+        for it in doc.prolog.iter_mut() {
+            if let Item::Decl(d) = it {
+                if !d.to_ascii_lowercase().contains("utf-8") && d.contains("encoding") {
+                    *d = "xml version=\"1.0\" encoding=\"UTF-8\"".into();
+                }
+            }
+        }
+    }
+    doc
 }
 
 pub struct History {
@@ -300,7 +332,7 @@ pub struct History {
 pub fn gen_history(rng: &mut Rng, themes: &[Theme], cfg: &GenCfg) -> History {
     let theme = *rng.pick(themes);
     let p = pool(theme, rng);
-    let root_name = rng.pick(&p).clone();
+    let root_name = if theme == Theme::NumberedNames { p[0].clone() } else { rng.pick(&p).clone() };
     let shape = gen_shape(rng, &p, &root_name, 1, cfg);
     let ndocs = rng.range(1, cfg.max_docs);
     let docs = (0..ndocs).map(|i| gen_doc(rng, &shape, cfg, i)).collect();
